@@ -411,7 +411,8 @@ class Reader:
         else:
             scratch_dir.mkdir(exist_ok=True, parents=True)
             bin_file = Path(scratch_dir).joinpath(self.file_bin.name).with_suffix('.bin')
-            shutil.copy(self.file_meta_data, bin_file.with_suffix('.meta'))
+            if self.file_meta_data is not None:
+                shutil.copy(self.file_meta_data, bin_file.with_suffix('.meta'))
         if not bin_file.exists():
             t0 = time.time()
             _logger.info('File is compressed, decompressing to a temporary file...')
